@@ -64,7 +64,7 @@ func c14Judge(k c14Case) *vlib.Failure {
 				return vlib.Failf("approved although element %q is not an allowed name (set %q, lines %q)", n, k.Set, k.Lines)
 			}
 		}
-	case "api":
+	case "api", "api-after-debug":
 		m, err := cors.NewMiddleware(cors.Config{Origins: []string{"https://a.b"}, RequestHeaders: k.Set})
 		if err != nil {
 			return vlib.Failf("configuration rejected: %v", err)
@@ -72,6 +72,11 @@ func c14Judge(k c14Case) *vlib.Failure {
 		inner := &vlib.Noop{}
 		h := m.Wrap(inner)
 		req := vlib.Req{Method: "OPTIONS", Hdr: map[string][]string{"Origin": {"https://a.b"}, "Access-Control-Request-Method": {"GET"}, "Access-Control-Request-Headers": k.Lines}}
+		if k.Via == "api-after-debug" {
+			m.SetDebug(true)
+			vlib.Serve(h, &inner.Calls, req, nil)
+			m.SetDebug(false)
+		}
 		res := vlib.Serve(h, &inner.Calls, req, nil)
 		ok := res.Status >= 200 && res.Status <= 299 && len(res.Hdr["Access-Control-Allow-Origin"]) == 1
 		if ok != want {
@@ -370,6 +375,34 @@ func checkC14(c *vlib.Ctx) (string, string) {
 				}
 			}
 		}
+		// history: the lines were first seen while debug mode was on (where they are not validated), then debug is
+		// switched off and the same lines come again
+		apiAfterDebug := func(lines []string) {
+			mh, err := cors.NewMiddleware(cors.Config{Origins: []string{"https://a.b"}, RequestHeaders: f.set})
+			if err != nil {
+				return
+			}
+			hh := mh.Wrap(http.HandlerFunc(func(http.ResponseWriter, *http.Request) {}))
+			r := vlib.Req{Method: "OPTIONS", Hdr: map[string][]string{"Origin": {"https://a.b"}, "Access-Control-Request-Method": {"GET"}, "Access-Control-Request-Headers": lines}}
+			mh.SetDebug(true)
+			hh.ServeHTTP(vlib.NewRec(), r.HTTP())
+			mh.SetDebug(false)
+			rec := vlib.NewRec()
+			hh.ServeHTTP(rec, r.HTTP())
+			ok := rec.Status >= 200 && rec.Status <= 299 && len(rec.H["Access-Control-Allow-Origin"]) == 1
+			if ok != ref.ACRH(f.set, lines) {
+				k := c14Case{f.set, append([]string(nil), lines...), "api-after-debug"}
+				if fl := vlib.Guard(func() *vlib.Failure { return c14Judge(k) }); fl != nil {
+					ck.Report(k, fl)
+				} else {
+					vlib.HarnessError("fast path and judge disagree on %+v", k)
+				}
+			}
+		}
+		wh := vlib.NewWords(f.alpha, 3)
+		c.ParRange(wh.Count(), 256, "C14 API lines after debug mode", func(i int64) { apiAfterDebug([]string{wh.At(i)}) })
+		c.Evaluations.Add(wh.Count())
+		c.Transitions.Add(2 * wh.Count())
 		c.ParRange(wa.Count(), 1024, "C14 API lines", func(i int64) { apiTry([]string{wa.At(i)}) })
 		c.Evaluations.Add(wa.Count())
 		c.Transitions.Add(wa.Count())
